@@ -203,6 +203,27 @@ def build() -> Check:
           vals and all(v in ("config.serdes", "None") for v in vals) and "config.serdes" in vals,
           f"Callback.serdes is bound to {sorted(vals)}")
 
+    # R4 (codec): the first run raises from the in-memory error object, every replay from the one decoded off the wire. The two agree on every
+    # field only if the error codec drops nothing that is set - a truthiness filter turns '' (the message of `raise ValueError()`) into None
+    from sa.tables import reader_table, self_root, writer_table
+    eo = prog.cls("lambda_service", "ErrorObject")
+    if "to_dict" not in eo.methods or "from_dict" not in eo.methods:
+        from sa.model import AnalysisError
+        raise AnalysisError("ErrorObject.to_dict / from_dict not found")
+    wt_ = writer_table(eo.methods["to_dict"])
+    rt_ = reader_table(prog, eo.methods["from_dict"])
+    fields_ = [f.name for f in eo.all_fields()]
+    ck.floor("error_object_fields", len(fields_), 4)
+    for fname in fields_:
+        ws = [e for e in wt_ if self_root(e.value) == (fname,)]
+        gk = {e.guard_kind(fname) for e in ws}
+        r = rt_.get(fname)
+        ok = bool(ws) and gk <= {"always", "notnone"} and r is not None and r.key is not None and r.key == ws[0].path[-1] and r.presence in ("always", "notnone") \
+            and r.access in ("get", "subscript")
+        ck.ob("R4.error-codec-keeps-set-fields", "lambda_service.py:ErrorObject", ok,
+              f"field `{fname}`: written under guard {sorted(gk) or 'never'} as {ws[0].path if ws else None}, read back as "
+              f"{(r.key, r.access, r.presence) if r else None}: an error field that is set (e.g. an empty message) must survive record -> replay", cell=fname)
+
     # R5: the batch a map/parallel delivers is classified with the caller's completion policy on the first run and when it is rebuilt
     # on replay (BatchResult.from_items falls back to fail-fast when no policy is passed: a silent, different completion_reason)
     import ast as _ast
